@@ -90,41 +90,51 @@ theorem C16_recover (n : Nat) (s : VSt) (hr : Reachable n s) (hq : ∀ u, s.pc u
 
 `C16_safe` is about the product of per-version components.  On disk every effect names its
 target exactly (different versions, different names) except the cleanup `Fetch` does before
-extracting, which matches directory entries of the parent by PREFIX (Bridge: `fx_Fetch_removes`,
-`cleanup_tmp_suffix`). -/
+extracting, which goes through the entries of the parent directory and matches them by name
+(Bridge: `fx_Fetch_removes`, `cleanup_tmp_suffix`, pins of `isAllDigits`, `isVersionDir`). -/
 
-/-- The cleanup for the directory called `base` removes `base` itself or `.tmp-` siblings of it,
-nothing else. -/
+/-- The cleanup for the directory called `base` removes `base` itself, or an entry
+`base.tmp-<digits>` that is not named after a version; nothing else. -/
 theorem C16_cleanup_confined (base name : Name) (h : cleanupRemoves base name = true) :
-    name = base ∨ ∃ rest, name = base ++ tmpSuffix ++ rest :=
+    name = base ∨
+      (∃ ds, name = base ++ tmpSuffix ++ ds ∧ isAllDigits ds = true) ∧ isVersionDir name = false :=
   cleanup_confined base name h
 
-/-- FULL statement: fetching one version never removes the extraction directory of another
-valid version of the same module.  It is FALSE of model and code alike … -/
-def C16_cleanup_indep_stmt : Prop :=
-  ∀ e v w : Name, Semver.isValid v = true → Semver.isValid w = true → v ≠ w →
-    cleanupRemoves (dirBase e v) (dirBase e w) = false
-
-/-- … witness: "v0.0.1-a.tmp-x" is a valid version whose directory name is that of "v0.0.1-a"
-followed by ".tmp-x" (replayed on the implementation by the harness, phase P8; reported as
-finding `tmp-prefix-version`). -/
-theorem C16_cleanup_indep_false : ¬ C16_cleanup_indep_stmt := by
-  intro h
-  obtain ⟨hv, hw, hne, hr⟩ := tmp_witness
-  have := h [113] _ _ hv hw hne
-  rw [this] at hr
-  exact Bool.false_ne_true hr
-
-/-- What holds: another version's directory is spared unless its name is this version's name
-followed by ".tmp-…" — exactly the excluded region. -/
-theorem C16_cleanup_indep_partial (e v w : Name) (hne : v ≠ w)
-    (hno : hasPrefix (dirBase e v ++ tmpSuffix) (dirBase e w) = false) :
+/-- **Independence.**  Fetching version v never removes the extraction directory of another
+version w of the same module: the entries examined are direct children of the parent
+directory, w's directory is the child named `e@w`, and that name is "named after a version".
+Needed: the module's last path element `e` contains no '@' (module paths cannot), and w —
+the version as written on disk, where an upper-case letter is "!" + the lower-case letter —
+is a valid semantic version once the "!" are dropped. -/
+theorem C16_cleanup_indep (e v w : Name) (he : ∀ c ∈ e, c ≠ 64)
+    (hw : Semver.isValid (stripBang w) = true) (hne : v ≠ w) :
     cleanupRemoves (dirBase e v) (dirBase e w) = false :=
-  cleanup_spares _ _ (dirBase_ne e v w hne) hno
+  cleanup_indep e v w he hw hne
 
--- non-vacuity: the hypothesis holds for the sibling versions v0.0.1 / v0.0.10 (TEST)
-example : hasPrefix (dirBase [102] [118,48,46,48,46,49] ++ tmpSuffix) (dirBase [102] [118,48,46,48,46,49,48]) = false := by
-  decide
+/-- The match BEFORE f81b1df (any name with the prefix `base.tmp-`) violated independence:
+it removed the directory of the valid version "v0.0.1-a.tmp-x" when "v0.0.1-a" was extracted
+(reproduced on the implementation at the time; fixed: f81b1df).  The current match spares it. -/
+theorem C16_old_prefix_match_violates :
+    ∃ e v w : Name, Semver.isValid v = true ∧ Semver.isValid w = true ∧ v ≠ w ∧
+      cleanupRemovesOld (dirBase e v) (dirBase e w) = true ∧
+      cleanupRemoves (dirBase e v) (dirBase e w) = false :=
+  ⟨_, _, _, old_prefix_match_witness.1, old_prefix_match_witness.2.1, old_prefix_match_witness.2.2.1,
+    old_prefix_match_witness.2.2.2.1, old_prefix_match_witness.2.2.2.2.2⟩
+
+/-- The match of f81b1df (`base.tmp-<digits>`) still violated it: "v0.0.1-a.tmp-1" is a valid
+version too (fixed: 01b58aa).  The current match spares it. -/
+theorem C16_old_digits_match_violates :
+    ∃ e v w : Name, Semver.isValid v = true ∧ Semver.isValid w = true ∧ v ≠ w ∧
+      cleanupRemovesDigits (dirBase e v) (dirBase e w) = true ∧
+      cleanupRemoves (dirBase e v) (dirBase e w) = false :=
+  ⟨_, _, _, old_digits_match_witness.1, old_digits_match_witness.2.1, old_digits_match_witness.2.2.1,
+    old_digits_match_witness.2.2.2.1, old_digits_match_witness.2.2.2.2⟩
+
+-- non-vacuity (TESTS): the hypotheses of C16_cleanup_indep hold for foo@v0.0.1 / foo@v0.0.10,
+-- and a genuine legacy temporary directory `q@v0.0.1.tmp-123` is still cleaned up
+example : Semver.isValid (stripBang [118,48,46,48,46,49,48]) = true := by decide
+example : cleanupRemoves (dirBase [113] [118,48,46,48,46,49]) (dirBase [113] [118,48,46,48,46,49] ++ tmpSuffix ++ [49,50,51]) = true :=
+  legacy_tmp_removed
 
 /-! ### non-vacuity (TESTS on concrete runs, not the property) -/
 
